@@ -289,7 +289,7 @@ func clone(output map[core.PubKey][]core.ParSignedData) map[core.PubKey][]core.P
 
 // getThresholdMatching returns true and threshold number of partial signed data with identical data or false.
 func getThresholdMatching(typ core.DutyType, sigs []core.ParSignedData, threshold int) ([]core.ParSignedData, bool, error) {
-	if len(sigs) < threshold {
+	if len(sigs) < threshold || len(sigs) == 0 {
 		return nil, false, nil
 	}
 
@@ -309,11 +309,17 @@ func getThresholdMatching(typ core.DutyType, sigs []core.ParSignedData, threshol
 		sigsByMsgRoot[root] = append(sigsByMsgRoot[root], sig)
 	}
 
+	// Only the group of the most recently stored partial signature (the last element, see store) can
+	// have reached the threshold by this insertion. Any other group of exactly threshold size has
+	// already triggered when its last member was stored and must not trigger again.
+	lastRoot, err := sigs[len(sigs)-1].MessageRoot()
+	if err != nil {
+		return nil, false, err
+	}
+
 	// Return true if we have "threshold" number of signatures.
-	for _, set := range sigsByMsgRoot {
-		if len(set) == threshold {
-			return set, true, nil
-		}
+	if set := sigsByMsgRoot[lastRoot]; len(set) == threshold {
+		return set, true, nil
 	}
 
 	return nil, false, nil
